@@ -229,6 +229,233 @@ all-delimiter string). -/
 theorem splitBy_length (s : Bytes) (d : Nat) : (splitBy s d).length = s.count d + 1 :=
   splitGo_length' d s []
 
+/-! ## TrimWhitespace -/
+
+/-- **trim_spec**: `TrimWhitespace` removes exactly the maximal whitespace prefix and suffix:
+for every decomposition `ws1 ++ core ++ ws2` with `ws1`, `ws2` whitespace and `core` empty or
+beginning and ending with a non-whitespace byte, the result is `core`. -/
+theorem trim_spec (ws1 core ws2 : Bytes)
+    (h1 : ∀ b ∈ ws1, isSpace b = true) (h2 : ∀ b ∈ ws2, isSpace b = true)
+    (hc : core = [] → ws2 = [])
+    (hfirst : ∀ b, core.head? = some b → isSpace b = false)
+    (hlast : ∀ b, core.getLast? = some b → isSpace b = false) :
+    trim (ws1 ++ core ++ ws2) = core := by
+  by_cases hcore : core = []
+  · -- all whitespace
+    subst hcore
+    have hw2 := hc rfl
+    subst hw2
+    simp only [List.append_nil]
+    by_cases hw : ws1 = []
+    · subst hw; simp [trim]
+    · have hlen : 0 < ws1.length := List.length_pos_iff.2 hw
+      have hall : ∀ i, i ≤ ws1.length - 1 → isSpace (ws1.getD i 0) = true := by
+        intro i hi
+        have hi' : i < ws1.length := by omega
+        rw [List.getD_eq_getElem?_getD, List.getElem?_eq_getElem hi']
+        exact h1 _ (List.getElem_mem hi')
+      unfold trim
+      have hne : ws1.isEmpty = false := by cases ws1 <;> simp_all
+      simp only [hne, Bool.false_eq_true, if_false]
+      by_cases hone : ws1.length = 1
+      · -- single whitespace byte
+        have e0 : ws1.length - 1 = 0 := by omega
+        rw [e0]
+        have hs0 := hall 0 (by omega)
+        have hst : trimStart ws1 0 (ws1.length + 1) 0 = 1 := by
+          rw [show ws1.length + 1 = 1 + 1 by omega]
+          unfold trimStart
+          rw [hs0]; simp
+        rw [hst]
+        have hen : trimEnd ws1 1 (ws1.length + 1) 0 = 0 := by
+          rw [show ws1.length + 1 = 1 + 1 by omega]
+          unfold trimEnd
+          simp
+        rw [hen]; simp
+      · have hge : 1 ≤ ws1.length - 1 := by omega
+        have hst := trimStart_allspace ws1 (ws1.length - 1) hall (ws1.length + 1) 0 (by omega) (by omega)
+        rw [hst]
+        have hs := hall (ws1.length - 1) (Nat.le_refl _)
+        have hen : trimEnd ws1 (ws1.length - 1) (ws1.length + 1) (ws1.length - 1) = ws1.length - 1 - 1 := by
+          rw [show ws1.length + 1 = ws1.length + 1 from rfl]
+          unfold trimEnd
+          have hne0 : (ws1.length - 1 != 0) = true := by simp; omega
+          simp only [hs, hne0, Bool.and_self, if_true]
+          rw [if_neg (by omega)]
+        rw [hen]
+        have : ws1.length - 1 > ws1.length - 1 - 1 := by omega
+        simp [this]
+  · -- non-empty core
+    have hclen : 0 < core.length := List.length_pos_iff.2 hcore
+    let text := ws1 ++ core ++ ws2
+    let k := ws1.length
+    let t := ws1.length + core.length - 1
+    have hn : text.length = ws1.length + core.length + ws2.length := by simp [text]; omega
+    have hget1 : ∀ i, i < k → isSpace (text.getD i 0) = true := by
+      intro i hi
+      have : text.getD i 0 = ws1[i]'hi := by
+        simp only [text, List.append_assoc]
+        rw [List.getD_eq_getElem?_getD, List.getElem?_append_left hi, List.getElem?_eq_getElem hi]; rfl
+      rw [this]; exact h1 _ (List.getElem_mem hi)
+    have hgetk : isSpace (text.getD k 0) = false := by
+      have hk' : k < text.length := by omega
+      have : text.getD k 0 = core[0]'hclen := by
+        simp only [text, List.append_assoc, k]
+        rw [List.getD_eq_getElem?_getD, List.getElem?_append_right (Nat.le_refl _), Nat.sub_self,
+            List.getElem?_append_left hclen, List.getElem?_eq_getElem hclen]; rfl
+      rw [this]
+      apply hfirst
+      cases core with
+      | nil => exact absurd rfl hcore
+      | cons c cs => rfl
+    have hgett : isSpace (text.getD t 0) = false := by
+      have hidx : t - ws1.length = core.length - 1 := by omega
+      have hlt : core.length - 1 < core.length := by omega
+      have : text.getD t 0 = core[core.length - 1]'hlt := by
+        simp only [text, List.append_assoc, t]
+        rw [List.getD_eq_getElem?_getD, List.getElem?_append_right (by omega)]
+        rw [show ws1.length + core.length - 1 - ws1.length = core.length - 1 by omega]
+        rw [List.getElem?_append_left hlt, List.getElem?_eq_getElem hlt]; rfl
+      rw [this]
+      apply hlast
+      rw [List.getLast?_eq_getElem?]
+      exact List.getElem?_eq_getElem hlt
+    have hget2 : ∀ i, t < i → i ≤ text.length - 1 → isSpace (text.getD i 0) = true := by
+      intro i hi1 hi2
+      have hi3 : i - (ws1.length + core.length) < ws2.length := by omega
+      have : text.getD i 0 = ws2[i - (ws1.length + core.length)]'hi3 := by
+        simp only [text]
+        rw [List.getD_eq_getElem?_getD, List.getElem?_append_right (by simp; omega)]
+        simp only [List.length_append]
+        rw [List.getElem?_eq_getElem hi3]; rfl
+      rw [this]; exact h2 _ (List.getElem_mem hi3)
+    have htne : text.isEmpty = false := by
+      cases hte : text with
+      | nil => rw [hte] at hn; simp at hn; omega
+      | cons _ _ => rfl
+    show trim text = core
+    unfold trim
+    simp only [htne, Bool.false_eq_true, if_false]
+    have hst := trimStart_found text k (text.length - 1) hget1 hgetk (by omega) (text.length + 1) 0 (by omega) (by omega)
+    rw [hst]
+    have hen := trimEnd_found text k t (text.length - 1) hget2 hgett (by omega) (text.length + 1) (text.length - 1) (by omega) (Nat.le_refl _) (by omega)
+    rw [hen]
+    have hkt : ¬ k > t := by omega
+    simp only [hkt, if_false]
+    have hlen : t - k + 1 = core.length := by omega
+    rw [hlen]
+    simp only [text, k, List.append_assoc]
+    rw [List.drop_left, List.take_left]
+
+
+/-- the reference definition: drop the maximal whitespace prefix and suffix -/
+def trimRef (s : Bytes) : Bytes := ((s.dropWhile isSpace).reverse.dropWhile isSpace).reverse
+
+private theorem mem_takeWhile_sp (l : Bytes) (x : Nat) (h : x ∈ l.takeWhile isSpace) : isSpace x = true := by
+  induction l with
+  | nil => simp at h
+  | cons y ys ih =>
+    simp only [List.takeWhile_cons] at h
+    split at h
+    · rcases List.mem_cons.1 h with rfl | h'
+      · assumption
+      · exact ih h'
+    · simp at h
+
+private theorem getLast?_append_ne (a b : Bytes) (h : b ≠ []) : (a ++ b).getLast? = b.getLast? := by
+  induction a with
+  | nil => rfl
+  | cons x xs ih =>
+    cases hxb : xs ++ b with
+    | nil => simp at hxb; exact absurd hxb.2 h
+    | cons y ys => rw [List.cons_append, hxb, List.getLast?_cons_cons, ← hxb, ih]
+
+private theorem head_dropWhile (l : Bytes) (b : Nat) (h : (l.dropWhile isSpace).head? = some b) : isSpace b = false := by
+  induction l with
+  | nil => simp at h
+  | cons x xs ih =>
+    simp only [List.dropWhile_cons] at h
+    split at h
+    · exact ih h
+    · simp at h; subst h; simpa using ‹¬isSpace x = true›
+
+/-- **trim_eq_trimRef**: for every byte string, `TrimWhitespace` is the reference trimming. -/
+theorem trim_eq_trimRef (s : Bytes) : trim s = trimRef s := by
+  let a := s.takeWhile isSpace
+  let r := s.dropWhile isSpace
+  let b := (r.reverse.takeWhile isSpace).reverse
+  let core := (r.reverse.dropWhile isSpace).reverse
+  have hr : r = core ++ b := by
+    have := List.takeWhile_append_dropWhile (p := isSpace) (l := r.reverse)
+    have h2 := congrArg List.reverse this
+    simp only [List.reverse_append, List.reverse_reverse] at h2
+    exact h2.symm
+  have hs : s = a ++ core ++ b := by
+    have := (List.takeWhile_append_dropWhile (p := isSpace) (l := s)).symm
+    rw [List.append_assoc, ← hr]; exact this
+  have ha : ∀ x ∈ a, isSpace x = true := fun x hx => mem_takeWhile_sp s x hx
+  have hb : ∀ x ∈ b, isSpace x = true := by
+    intro x hx
+    have : x ∈ r.reverse.takeWhile isSpace := by simpa [b] using hx
+    exact mem_takeWhile_sp _ x this
+  have hfirst : ∀ x, core.head? = some x → isSpace x = false := by
+    intro x hx
+    apply head_dropWhile s x
+    show r.head? = some x
+    rw [hr]
+    cases hc : core with
+    | nil => rw [hc] at hx; simp at hx
+    | cons c cs => rw [hc] at hx; simpa using hx
+  have hlast : ∀ x, core.getLast? = some x → isSpace x = false := by
+    intro x hx
+    apply head_dropWhile r.reverse x
+    have : core.getLast? = (r.reverse.dropWhile isSpace).head? := by simp [core, List.getLast?_reverse]
+    rw [← this]; exact hx
+  have hc : core = [] → b = [] := by
+    intro hcn
+    have hrb : r = b := by rw [hr, hcn]; simp
+    cases hrr : r with
+    | nil => rw [hrr] at hrb; exact hrb.symm
+    | cons x xs =>
+      have hx : isSpace x = true := hb x (by rw [← hrb, hrr]; simp)
+      have := head_dropWhile s x (by show r.head? = some x; rw [hrr]; rfl)
+      rw [hx] at this; cases this
+  have := trim_spec a core b ha hb hc hfirst hlast
+  rw [← hs] at this
+  rw [this]
+  rfl
+
+/-- trimming is idempotent -/
+theorem trim_idempotent (s : Bytes) : trim (trim s) = trim s := by
+  rw [trim_eq_trimRef s, trim_eq_trimRef]
+  unfold trimRef
+  generalize hc : ((s.dropWhile isSpace).reverse.dropWhile isSpace) = c
+  have h1 : c.dropWhile isSpace = c := by
+    cases hcc : c with
+    | nil => rfl
+    | cons x xs =>
+      have := head_dropWhile (s.dropWhile isSpace).reverse x (by rw [hc, hcc]; rfl)
+      simp [List.dropWhile_cons, this]
+  have h2 : c.reverse.dropWhile isSpace = c.reverse := by
+    cases hrr : c.reverse with
+    | nil => rfl
+    | cons x xs =>
+      -- the head of c.reverse is the last byte of c; c is a suffix-reversal of dropWhile: its last is head of dropWhile s
+      have hx : isSpace x = false := by
+        have hlast : c.getLast? = some x := by
+          rw [← List.head?_reverse, hrr]; rfl
+        -- c = (dropWhile s).reverse.dropWhile, so c is a suffix of (dropWhile s).reverse; its last element is the head of dropWhile s
+        have hsuf : c <:+ (s.dropWhile isSpace).reverse := by rw [← hc]; exact List.dropWhile_suffix _
+        obtain ⟨pre, hpre⟩ := hsuf
+        have hne : c ≠ [] := by intro e; rw [e] at hlast; simp at hlast
+        have : ((s.dropWhile isSpace).reverse).getLast? = some x := by
+          rw [← hpre, getLast?_append_ne _ _ hne]; exact hlast
+        rw [List.getLast?_reverse] at this
+        exact head_dropWhile s x this
+      simp [List.dropWhile_cons, hx]
+  rw [h2, List.reverse_reverse, h1]
+
+
 /-! ## IsInteger -/
 
 /-- **isInteger_spec**: `-?[0-9]+`. -/
